@@ -11,9 +11,9 @@ import (
 
 func init() {
 	register("C10", "Decides structural necessary conditions of 'the ASN.1 fork is as strict as upstream; lax only adds acceptances': "+
-		"(R1) lax propagation — the set of parameters that receive the lax flag is exactly {checkInteger, parseInt64, parseInt32, parseBigInt, parseObjectIdentifier, parsePrintableString, parseSequenceOf}; at every call site of these the lax argument is the caller's own incoming flag (its lax parameter or params.lax), never a constant; every parseField call made by a function that has an incoming flag passes parameters whose lax field was set from it on all paths; the lax field is written only from an incoming flag or, in parseFieldParameters, as true under the tag part \"lax\"; Unmarshal is UnmarshalWithParams with the empty (strict) parameter string and the remainder is b[offset:]; "+
+		"(R1) lax propagation — the set of parameters that receive the lax flag is exactly {checkInteger, parseInt64, parseInt32, parseBigInt, parseObjectIdentifier, parsePrintableString, parseSequenceOf}; at every call site of these the lax argument is the caller's own incoming flag (its lax parameter or params.lax), never a constant; a taker that receives the flag inside a parameter structure instead of a bool is held to the rule for parseField's parameters at each of its call sites; every parseField call made by a function that has an incoming flag passes parameters whose lax field was set from it on all paths; the lax field is written only from an incoming flag or, in parseFieldParameters, as true under the tag part \"lax\"; Unmarshal is UnmarshalWithParams with the empty (strict) parameter string and the remainder is b[offset:]; "+
 		"(R2) monotonicity — lax-derived values condition branches only in checkInteger, parseObjectIdentifier, parsePrintableString; in each, for every valuation of all other branch atoms, what strict mode accepts lax mode accepts with the identical result, lax never rejects where strict accepts, and the outcomes differ only for the documented malformation (integer longer than one byte / empty OID / non-printable byte, accepted only if the bytes could be ISO 8859-1 or T.61); "+
-		"(R3) strict ≡ toolchain — with every lax operand replaced by false, each same-named function of asn1.go, common.go, marshal.go has the same multiset of rejection sites, error-propagating calls and returns under the same enclosing/preceding conditions, the same multiset of branch conditions (every if / for / range / switch clause, comparison orientation canonical; decisions in one normal form: tagless switch = if-chain, nested if = &&, a leaving `if a || b` = one if per disjunct, length > 0 = length != 0, keyed = positional struct literals, single-definition temporaries substituted) and the same multiset of assignments to named results and to variables that flow into returned values as encoding/asn1 of the toolchain that type-checks the repository, up to the frozen drift table in rules_c10.go (each entry with reason; acceptance-changing entries are marked); "+
+		"(R3) strict ≡ toolchain — with every lax operand replaced by false, each same-named function of asn1.go, common.go, marshal.go has the same multiset of rejection sites, error-propagating calls and returns under the same enclosing/preceding conditions, the same multiset of branch conditions (every if / for / range / switch clause, comparison orientation canonical; decisions in one normal form: tagless switch = if-chain, nested if = &&, a leaving `if a || b` = one if per disjunct, length > 0 = length != 0, keyed = positional struct literals, single-definition temporaries substituted, range over an integer = its counting loop when the bound is invariant, verb-less fmt.Errorf = errors.New, helper calls expanded by the source normaliser read in place where that is exact — run-once blocks, result temporaries, nil tests decided by what precedes them —, unexported package variables under another name matched by their definition, a parameter that every upstream caller derives from another argument read as that derivation) and the same multiset of assignments to named results and to variables that flow into returned values as encoding/asn1 of the toolchain that type-checks the repository, up to the frozen drift table in rules_c10.go (each entry with reason; acceptance-changing entries are marked); "+
 		"(R4) raw preservation — parseField stores RawValue.FullBytes and RawContent as bytes[initOffset:offset] (sub-slice of the input ending at the returned offset) and Bytes as its content suffix; makeField emits non-empty FullBytes verbatim, makeBody emits a leading non-empty RawContent minus its header, bytesEncoder copies verbatim. "+
 		"NOT covered: acceptance/value equality with encoding/asn1 on all inputs (only that no check, propagation or return differs structurally), code without a rejection/return site (offset arithmetic, reflect stores), marshal∘unmarshal identity, absence of panics, allocation bounds, the semantics of reflect. The R3 verdict is relative to the installed toolchain's encoding/asn1 (version recorded in the assumptions).",
 		runC10)
@@ -49,6 +49,9 @@ func c10R1(r *Run, li *c10LaxInfo) {
 	r.Rule("C10.R1")
 	// (a) who takes the flag: computed by propagation from params.lax == the frozen table
 	want := map[*ssa.Parameter]string{}
+	// a taker may also receive the flag inside a parameter structure (a struct parameter
+	// that has the lax field, as parseField does): callee -> index of that parameter
+	structTaker := map[*ssa.Function]int{}
 	for _, name := range c10LaxTakers {
 		fn := r.Fn(name)
 		if fn == nil {
@@ -62,8 +65,25 @@ func c10R1(r *Run, li *c10LaxInfo) {
 				n++
 			}
 		}
+		if n == 0 {
+			si, ns := -1, 0
+			for i, p := range fn.Params {
+				if st, ok := p.Type().Underlying().(*types.Struct); ok {
+					for k := 0; k < st.NumFields(); k++ {
+						if st.Field(k) == li.field {
+							si = i
+							ns++
+						}
+					}
+				}
+			}
+			if ns == 1 {
+				structTaker[fn] = si
+				continue // its call sites are checked below (forward:…)
+			}
+		}
 		if n != 1 {
-			r.Fail("taker:"+name, r.FnPos(fn), fmt.Sprintf("expected exactly one bool parameter (the lax flag), found %d", n))
+			r.Fail("taker:"+name, r.FnPos(fn), fmt.Sprintf("expected exactly one bool parameter (the lax flag) or one parameter structure with the lax field, found %d bool parameters", n))
 			continue
 		}
 		want[bp] = name
@@ -76,6 +96,7 @@ func c10R1(r *Run, li *c10LaxInfo) {
 	}
 	// (b) every call site of a taker forwards the caller's own incoming flag
 	sites := 0
+	structSites := map[*ssa.Function]int{}
 	for _, fn := range li.fns {
 		eachInstr(fn, func(in ssa.Instruction) {
 			ci, ok := in.(ssa.CallInstruction)
@@ -84,6 +105,14 @@ func c10R1(r *Run, li *c10LaxInfo) {
 			}
 			cal := ci.Common().StaticCallee()
 			if cal == nil {
+				return
+			}
+			if si, ok := structTaker[cal]; ok {
+				// the flag travels in the lax field of the structure passed: it must be the
+				// caller's incoming flag on every path (same demand as for parseField's parameters)
+				sites++
+				structSites[cal]++
+				c10ParamsCarryLax(r, li, fn, ci, si, "forward:"+FuncName(fn)+"→"+FuncName(cal), true)
 				return
 			}
 			for i, p := range cal.Params {
@@ -96,6 +125,9 @@ func c10R1(r *Run, li *c10LaxInfo) {
 					fmt.Sprintf("lax argument of %s is %s (must be the caller's lax parameter or params.lax)", FuncName(cal), r.D.D(a)))
 			}
 		})
+	}
+	for fn, si := range structTaker {
+		r.Check("taker:"+FuncName(fn), structSites[fn] > 0, r.FnPos(fn), fmt.Sprintf("parameter %d of %s (a parameter structure) receives the lax flag in its lax field at %d call site(s)", si, FuncName(fn), structSites[fn]))
 	}
 	r.Floor("lax forwarding call sites", sites, 14)
 	// (c) writers of the lax field
@@ -124,7 +156,7 @@ func c10R1(r *Run, li *c10LaxInfo) {
 			}
 			for _, c := range CallsTo(fn, "asn1.parseField") {
 				n++
-				if c10ParamsCarryLax(r, li, fn, c) {
+				if c10ParamsCarryLax(r, li, fn, c, 3, "params-lax:"+FuncName(fn), false) {
 					prop++
 				}
 			}
@@ -189,11 +221,14 @@ func c10R1(r *Run, li *c10LaxInfo) {
 
 // c10ParamsCarryLax checks one parseField call site; it reports whether the
 // site inherits an incoming flag.
-func c10ParamsCarryLax(r *Run, li *c10LaxInfo, fn *ssa.Function, c ssa.CallInstruction) bool {
-	key := "params-lax:" + FuncName(fn)
+// c10ParamsCarryLax checks one call site that passes a parameter structure as
+// argument ai (parseField's params, or the structure of a taker that receives the
+// flag that way); it reports whether the site inherits an incoming flag.
+// mustInherit: the caller has to have an incoming flag (no entry-point form).
+func c10ParamsCarryLax(r *Run, li *c10LaxInfo, fn *ssa.Function, c ssa.CallInstruction, ai int, key string, mustInherit bool) bool {
 	args := CallArgs(c)
-	if len(args) < 4 {
-		r.Fail(key, r.Where(c), "parseField call without a parameters argument")
+	if len(args) <= ai {
+		r.Fail(key, r.Where(c), "call without a parameters argument")
 		return false
 	}
 	incoming := li.laxParamOf(fn) != nil
@@ -207,8 +242,12 @@ func c10ParamsCarryLax(r *Run, li *c10LaxInfo, fn *ssa.Function, c ssa.CallInstr
 			}
 		}
 	}
-	a := args[3]
+	a := args[ai]
 	if !incoming {
+		if mustInherit {
+			r.Fail(key, r.Where(c), "the caller has no incoming lax flag to forward (its lax parameter or the lax field of its parameters)")
+			return false
+		}
 		r.Check(key, glob("asn1.parseFieldParameters(*)", r.D.D(a)), r.Where(c), "entry point without an incoming flag passes "+r.D.D(a)+" (the parsed parameter string)")
 		return false
 	}
@@ -217,7 +256,7 @@ func c10ParamsCarryLax(r *Run, li *c10LaxInfo, fn *ssa.Function, c ssa.CallInstr
 		return true
 	}
 	if _, isConst := a.(*ssa.Const); isConst {
-		r.Fail(key, r.Where(c), "passes constant parameters "+r.D.D(a)+" to parseField although the caller has an incoming lax flag (nested values fall back to strict)")
+		r.Fail(key, r.Where(c), "passes constant parameters "+r.D.D(a)+" although the caller has an incoming lax flag (nested values fall back to strict)")
 		return false
 	}
 	ld, ok := a.(*ssa.UnOp)
@@ -228,6 +267,55 @@ func c10ParamsCarryLax(r *Run, li *c10LaxInfo, fn *ssa.Function, c ssa.CallInstr
 	if al == nil {
 		r.Fail(key, r.Where(c), "undecided: parameters argument "+r.D.D(a)+" is not built in a local")
 		return false
+	}
+	if p := paramSpill(al); p != nil {
+		// the caller's own parameter structure, held in memory because some of its fields
+		// are written: it still carries the incoming flag at the call when the lax field is
+		// not written on any path to the call (or only from the incoming flag) and the
+		// address of the structure is used for field access and whole-value loads only
+		var spill ssa.Instruction
+		kills := map[ssa.Instruction]bool{}
+		escapes := false
+		for _, ref := range *al.Referrers() {
+			switch x := ref.(type) {
+			case *ssa.Store:
+				if x.Addr == ssa.Value(al) {
+					spill = x
+				} else {
+					escapes = true
+				}
+			case *ssa.FieldAddr:
+				if fieldOf(x) != li.field {
+					continue
+				}
+				for _, fr := range *x.Referrers() {
+					switch y := fr.(type) {
+					case *ssa.Store:
+						if y.Addr != ssa.Value(x) {
+							escapes = true
+						} else if !li.isLax(y.Val) {
+							kills[y] = true
+						}
+					case *ssa.UnOp:
+					default:
+						escapes = true
+					}
+				}
+			case *ssa.UnOp, *ssa.DebugRef:
+			default:
+				escapes = true
+			}
+		}
+		switch {
+		case escapes || spill == nil:
+			r.Fail(key, r.Where(c), "undecided: the address of the caller's parameter structure is used for more than field access")
+			return false
+		case c10FirstKillBetween(spill, c, kills) != nil:
+			r.Fail(key, r.Where(c10FirstKillBetween(spill, c, kills)), "the lax field of the caller's parameters is overwritten with something other than the incoming flag before they are passed on")
+			return false
+		}
+		r.Pass(key, r.Where(c), fmt.Sprintf("passes its own parameters p%d through (lax field not written before the call)", paramIndex(p)))
+		return true
 	}
 	var good []*ssa.Store
 	isKill := map[ssa.Instruction]bool{}
